@@ -234,7 +234,7 @@ func init() {
 			fees += fee
 		}
 		d := 1 + c.r.Intn(len(txs)+1)
-		return c.blockWith(txs, fees, chainsim.BlockSpec{DupTail: d, NoCommitment: true})
+		return c.blockWith(txs, fees, chainsim.BlockSpec{DupTail: d})
 	})
 	reg("witness/wrong-commitment", "C05", []string{"bad-witness-merkle-match"}, func(c *ctx) *refchain.Block {
 		if !c.segwit {
